@@ -309,6 +309,10 @@ func Exec(mode Mode, planJSON []byte, run *core.Run) {
 		run.Bad("entry has no canonical oracle")
 		return
 	}
+	if p.Seed >= uint64(e.Seeds) {
+		run.Bad("seed outside the entry's valid encodings")
+		return
+	}
 	v := valid(e, p.Seed)
 	run.T(e.Name)
 	muts := append([]Mut{}, p.Muts...)
@@ -523,6 +527,9 @@ func directed(tier string, filter func(*Entry) bool, flipsOnly bool) []any {
 		if tier == "thorough" {
 			seeds = 3
 			budget = 120000
+		}
+		if seeds > e.Seeds {
+			seeds = e.Seeds // an entry's decoder may only know the valid encodings 0..Seeds-1
 		}
 		budget /= e.Cost
 		if budget < 40 {
